@@ -55,7 +55,7 @@ def check(ctx):
     registry_run(ctx, ["live-c11", 6, 30 if thorough else 12, "keyfunc"], "keyfunc")
     nj = sum(1 for e in events if e["ev"] == "M.join.ok"); nr = sum(1 for e in events if e["ev"] == "M.join.refused")
     nroute = sum(1 for e in events if e["ev"] == "M.route.before"); nne = sum(1 for e in events if e["ev"] == "M.route.notexist")
-    if nr == 0 or nroute == 0 or nne == 0:
+    if (nr == 0 or nroute == 0 or nne == 0) and not ctx.viol:     # (a server that lets nobody join has been reported above)
         raise vlib.ToolFailure("driver did not exercise refusals/routes/not-exist: %s" % [nj, nr, nroute, nne])
     ctx.note_impl("registry-history-validated-by-Trace_Registry", 1, distinct=nj + nr + nroute + nne, events=len(events), joins=nj, refused=nr, routed=nroute, notexist=nne)
     ctx.sample({"from": "manager-log", "events": [[e["ev"], e.get("key"), e.get("conn"), e.get("k")] for e in events if e["p"] == "M"][:16]})
